@@ -45,7 +45,7 @@ func writeAt(path, content string) {
 	if err := os.WriteFile(path, []byte(content), 0o644); err != nil {
 		vlib.Fatal("%v", err)
 	}
-	clock = clock.Add(time.Hour)
+	clock = clock.Add(time.Second) // strictly increasing; small steps: millions of saves must stay far below year 2262 (UnixNano)
 	os.Chtimes(path, clock, clock)
 }
 
